@@ -33,7 +33,7 @@ from mc.engine import Res, Chooser, Diverged, explore_choices
 from mc import rex_alphabet as A
 from mc import rex_seams as S
 from mc.models import rex_spec as M
-from mc.checks.c03 import (RexDriver, ASCII_SINGLES, classes_of,
+from mc.checks.c03 import (RexDriver, ASCII_SINGLES,
                            regex_kinds)
 
 PRUNE_POINTS = [{'max_patterns': 1}, {'max_patterns': 2},
@@ -323,14 +323,11 @@ class C13(RexDriver):
                 continue
             seen.add((kind, clause))
 
-            def still_fails(s2, _kind=kind):
-                f2, _ = self.evaluate(Res(), s2, form, opts)
+            def fails(s2, o2, _kind=kind):
+                f2, _ = self.evaluate(Res(), s2, form, o2)
                 R.ev(2, checked=0)
                 return any(f[0] == _kind for f in f2)
-            cause = self.diagnose(supplied, still_fails)
-            if cause is None:
-                strings = [s for s in supplied if s is not None]
-                cause = classes_of(''.join(strings))
+            cause = self.diagnose(supplied, opts, fails)
             detail = {'examples': supplied, 'form': form,
                       'options': A.opt_key(opts)}
             detail.update(info)
@@ -425,14 +422,13 @@ class C13(RexDriver):
         base_kind = kind[len('sampled-'):] if kind.startswith('sampled-') \
             else kind
 
-        def still_fails(s2):
-            f2, _ = self.evaluate(Res(), s2, 'list', opts)
+        def fails(s2, o2):
+            f2, _ = self.evaluate(Res(), s2, 'list', o2)
             R.ev(2, checked=0)
             return any(f[0] == base_kind for f in f2)
-        if not still_fails(supplied):
+        if not fails(supplied, opts):
             return 'sampling-only'
-        return (self.diagnose(supplied, still_fails)
-                or classes_of(''.join(supplied)))
+        return self.diagnose(supplied, opts, fails)
 
 
 CHECK = C13()
